@@ -184,7 +184,7 @@ def extra_checks(pid, tier, seed, exe, workdir):
 EXTRA = {}
 
 HOOK_COMMITS = ["ec0e30b"]
-FIX_COMMITS = ["f38d614", "53a1696", "ab48bfa", "c882549", "be58dcf", "e268d80", "a281c03", "d168209", "866ad45", "ff93241", "ff97c81", "1d033aa", "67b591f"]
+FIX_COMMITS = ["f38d614", "53a1696", "ab48bfa", "c882549", "be58dcf", "e268d80", "a281c03", "d168209", "866ad45", "ff93241", "ff97c81", "1d033aa", "67b591f", "56a0235"]
 
 _MODELLED = ("Modelled, not verified: the C++ itself; the theorems are about the Gallina model "
              "(coq/theories/Model), tied to the code only by the correspondence run. ")
@@ -299,10 +299,14 @@ PROPS["C07"] = dict(
 
 PROPS["C08"] = dict(
     gens=[("reach", gen.gen_C08, 1.0), ("dist-nested", gen.gen_C08_dist, 1.4)], quick=50, thorough=500,
-    level_text="Proved: both breadth-first iterations (with and without frontier) return exactly the inductively "
-               "defined set of reachable states for every initial set and relation over any finite state list, "
-               "and terminate within |states|+1 rounds. Tie: REACHABLE_TRAD_FS / _NOFS / REACHABLE_SATUR, forward "
-               "and backward, against the model's least fixed point (table + canonical dump) and == among them.",
+    level_text="Proved: both breadth-first iterations and the level-wise saturation (nested fixed point) return "
+               "exactly the reachable states and terminate; any sequence of single-event firings that ends closed "
+               "under every event returns the same set; the distance iterations (forward/backward) return "
+               "shortest-path lengths; on diagrams, saturation, frontier and frontier-less iteration build the "
+               "identical diagram; the tabulated executable variants equal the specified ones. Tie: "
+               "REACHABLE_TRAD_FS / _NOFS / REACHABLE_SATUR, forward and backward, boolean / EV+ / MT-integer "
+               "distances, against the model's own frontier iteration / saturation (table + canonical dump) and == "
+               "among them.",
     level_note=_MODELLED + "Saturation itself is not mirrored: its result is compared with the proved BFS "
                "result (partial); distance-valued variants not covered yet.")
 PROPS["C09"] = dict(
@@ -343,10 +347,12 @@ PROPS["C12"] = dict(
 
 PROPS["C20"] = dict(
     gens=[("pregen", gen.gen_C20, 0.7), ("pregen-skipped-levels", gen.gen_C20_skip, 0.5)], quick=50, thorough=500,
-    level_text="Model = reachability (proved least fixed point, C08) under the union of the events: the grouping "
-               "(by events / by levels) and the splitting option do not appear in it at all. Tie: "
-               "SATURATION_FORWARD over pregen_relation with every grouping and splitting option vs the model "
-               "and == with the monolithic algorithms on the union relation.",
+    level_text="Proved: saturation over separately supplied events returns the states reachable under the UNION "
+               "of the events, whatever the grouping; it builds the identical diagram as breadth-first "
+               "reachability over any diagram of the union. Tie: SATURATION_FORWARD over pregen_relation with "
+               "every grouping and splitting option vs the model's saturation over the separate events and == "
+               "with the monolithic algorithms on the union relation; initial sets that skip adjacent levels, "
+               "levels without events.",
     level_note=_MODELLED + "pregen_relation::finalize/splitMxd and the saturation recursion are not mirrored "
                "(partial): they are compared with the proved BFS result on every generated case.")
 
